@@ -1241,6 +1241,19 @@ fn main() {
                         w.stx.remove(&id);
                         "ok".into()
                     }
+                    "durability" => {
+                        // tx <id> durability <buffer|syncdata|syncall|none>
+                        let m = if a[2] == "none" { None } else { Some(persist_mode(a[2])) };
+                        if let Some(t) = w.otx.remove(&id) {
+                            w.otx.insert(id, t.durability(m));
+                            "ok".into()
+                        } else if let Some(t) = w.stx.remove(&id) {
+                            w.stx.insert(id, t.durability(m));
+                            "ok".into()
+                        } else {
+                            "err:NoTx".into()
+                        }
+                    }
                     _ => "err:BadCmd".into(),
                 }
             }
